@@ -421,6 +421,11 @@ func GenSchema(r *Rng) *GSchema {
 		}
 		objsAndRoots = append(objsAndRoots, s.add(&GType{Kind: "OBJECT", Name: s.Subscription}))
 	}
+	if s.SchemaBlock && s.Mutation == "" && r.Chance(1, 2) {
+		// a conventionally named type that the schema block does NOT bind: a
+		// mutation against this schema has no root, whatever the type is called
+		objsAndRoots = append(objsAndRoots, s.add(&GType{Kind: "OBJECT", Name: "Mutation"}))
+	}
 	if len(ifaces) > 1 && r.Chance(1, 2) {
 		Pick(r, ifaces).Lonely = true
 	}
@@ -1121,6 +1126,19 @@ func InjectSchemaFaults(r *Rng, s *GSchema, n int) {
 				f := *Pick(r, t.Fields)
 				t.Fields = append(append([]*GField{}, t.Fields...), &f)
 				s.Faults = append(s.Faults, "dup-field")
+				if len(t.Fields) > 2 && r.Chance(1, 2) {
+					// two DIFFERENT names repeated in one type: which one is reported
+					// first must not depend on anything but the text
+					g := *Pick(r, t.Fields[:len(t.Fields)-1])
+					if g.Name != f.Name {
+						if r.Chance(1, 2) {
+							t.Fields = append(t.Fields, &g)
+						} else {
+							t.Fields = append(t.Fields[:len(t.Fields)-1:len(t.Fields)-1], &g, &f)
+						}
+						s.Faults = append(s.Faults, "dup-two-fields")
+					}
+				}
 			}
 		case 6:
 			if t := pickT("OBJECT", "INPUT"); t != nil {
